@@ -24,6 +24,7 @@ import (
 	"github.com/database64128/shadowsocks-go/conn"
 	"github.com/database64128/shadowsocks-go/netio"
 	"github.com/database64128/shadowsocks-go/service"
+	"github.com/database64128/shadowsocks-go/socks5"
 	"github.com/database64128/shadowsocks-go/tlscerts"
 	"go.uber.org/zap"
 	"go.uber.org/zap/zapcore"
@@ -401,6 +402,16 @@ func runCase(t *testing.T, tc tcase, res *vio.Result) {
 					} else if !cread.wait(func() bool { return cread.eof || cread.err != nil }, stepTimeout) {
 						fail("tcp.relay/failed-dial-not-closed", "the onward connection failed but the client connection stays open", si, "closed", "open")
 					}
+				} else if cconn == nil && tc.Server == "socks5" && (tc.Client == "direct" || tc.Client == "directtfo") {
+					// the protocol's failure reply must be the one that corresponds to how the dial failed: the same dial
+					// from this process gives the result code, the compiled table gives the SOCKS5 REP for it
+					var rep socks5.ReplyError
+					if errors.As(dialErr, &rep) {
+						want := expectedRep(target)
+						if want != 0 && byte(rep) != want {
+							fail("tcp.relay/wrong-failure-reply", fmt.Sprintf("the onward connection failed (%s); the client was sent SOCKS5 REP %d, the corresponding reply is %d", st.Code, byte(rep), want), si, want, byte(rep))
+						}
+					}
 				} else if cconn != nil {
 					// non-native client-side protocols learn the outcome from the reply; native ones only see the close
 					if tc.Server == "socks5" || tc.Server == "http" {
@@ -525,6 +536,22 @@ func runCase(t *testing.T, tc tcase, res *vio.Result) {
 	}
 	res.AddSteps(1, len(tc.Steps))
 	res.Sample(tc, 2)
+}
+
+// expectedRep dials the target from the harness the way a direct client would and maps the failure through the
+// repository's own tables; 0 means the dial unexpectedly succeeded or cannot be classified.
+func expectedRep(target string) byte {
+	d := net.Dialer{Timeout: 5 * time.Second}
+	c, err := d.Dial("tcp", target)
+	if err == nil {
+		_ = c.Close()
+		return 0
+	}
+	code := conn.DialResultCodeFromError(err)
+	if code == conn.DialResultCodeErrOther {
+		return 0
+	}
+	return socks5.ReplyFromDialResultCode(code)
 }
 
 func getStats(port int) map[string]any {
